@@ -325,6 +325,20 @@ def gen_case(rng):
         if via_call and rng.random() < 0.3:   # malformed argument combinations of __call__
             c['T'], c['P'] = rng.choice([(None, None), (300., 65536.), (0., 65536.), (300., 0.), (0., 0.), (0., None)])
         return c
+    if r < 0.84:
+        # history of calls on ONE BubblePoint / DewPoint pair (repeats, k*z, alternating T and P solves)
+        pk = gen_pkg(rng)
+        n = len(pk['chems'])
+        z = gen_z(rng, n, malformed=rng.random() < 0.1)
+        ops = []
+        for _ in range(rng.randint(3, 6)):
+            which = rng.choice(['Ty', 'Py', 'Tx', 'Px'])
+            zz = z if rng.random() < 0.6 else [x * rng.choice([2., 0.5, 4.]) for x in z] if rng.random() < 0.6 else gen_z(rng, n)
+            ops.append([which, zz, dy(rng, PS) if which[0] == 'T' else dy(rng, TS)])
+        if rng.random() < 0.7:
+            ops.append(list(ops[0]))          # the first call again, after the others
+        return {'kind': 'history', 'pkg': pk, 'ops': ops, 'ks': rng.choice([['newton'], ['echo'], ['newton']]),
+                'ki': rng.choice([['newton'], ['echo']]), 'nweg': rng.choice([0, 1, 1, 2])}
     if r < 0.88:
         ch = gen_chem(rng)
         return {'kind': 'tsat', 'chem': ch, 'P': dy(rng, PS), 'ks': gen_kind(rng, 'T'), 'ki': gen_kind(rng, 'T', allow_raise=rng.random() < 0.3)}
@@ -346,7 +360,10 @@ def gen_case(rng):
 
 def gen_cases(rng, tier):
     n = 330 if tier == 'quick' else 6000
-    return [gen_case(rng) for _ in range(n)]
+    cases = [gen_case(rng) for _ in range(n)]
+    # real database chemicals and real flexsolve: the property clauses and the package contracts the theorems assume
+    # (pure, permutation-equivariant Gamma/Phi/PCF, Gamma.f/args == Gamma()) evaluated directly, on every run
+    return cases + [gen_real(rng) for _ in range(18 if tier == 'quick' else 150)]
 
 # ------------------------------------------------------------------ implementation side
 def mk_point(case_cls, cs, thermo):
@@ -441,8 +458,23 @@ def run_cache(case):
             oks[-1] = 'wrong-IDs'
     return {'oks': oks, 'ids': ids, 'doms': doms}
 
+def run_history(case):
+    cs, thermo = install(case['pkg'])
+    BP, DP = mk_point('B', cs, thermo), mk_point('D', cs, thermo)
+    res = []
+    with stubbed(Shim(case['ks'], case['ki'], case['nweg'])):
+        for which, z, arg in case['ops']:
+            obj = BP if which[1] == 'y' else DP
+            m = getattr(obj, 'solve_' + which)
+            def f(m=m, z=z, arg=arg):
+                r = m(np.array(z, float), arg)
+                return [float(r[0]), fl(r[1])]
+            res.append(guarded(f))
+    return {'res': res, 'dom': [BP.Tmin, BP.Tmax, BP.Pmin, BP.Pmax]}
+
 def run_impl(case):
     k = case['kind']
+    if k == 'history': return run_history(case)
     if k == 'kernel': return run_kernel(case)
     if k == 'solve': return run_solve(case)
     if k == 'tsat': return run_tsat(case)
@@ -528,6 +560,10 @@ def coq_case(case, out):
                 T = q(case['T'])
                 body += f' && vapproxb (fst (Px_prep k {z} {T})) {qlist(prep[0])} && vapproxb (snd (Px_prep k {z} {T})) {qlist(prep[1])}'
         return with_pkg(case['pkg'], body, out['dom'])
+    if kd == 'history':
+        calls = clist([f'(C{w} {qlist(z)} {q(a)})' for w, z, a in case['ops']])
+        exp = clist([cres_qv(r) for r in out['res']])
+        return with_pkg(case['pkg'], f'list_eqb rqv_approxb (run_calls k {S} {calls}) {exp}', out['dom'])
     if kd == 'tsat':
         res = out['res']
         exp = f'(Ok {q(res[1])})' if res[0] == 'ok' else f'(Err {res[1]})'
@@ -572,6 +608,8 @@ def coq_show(case, out):
 
 def nontrivial(case, out):
     kd = case['kind']
+    if kd == 'history':
+        return sum(1 for r in out['res'] if r[0] == 'ok') >= 2
     if kd in ('kernel', 'tsat'):
         return out['res'][0] == 'ok'
     if kd == 'solve':
@@ -595,6 +633,11 @@ def classify(case, out):
                'sum_z:' + ('1' if sum(z) == 1 else 'other')]
         ks += ['solvers:' + '+'.join(out.get('solvers', [])[:4])]
         if case['ks'][0] == 'raise': ks.append('fallback-bracketing-solver')
+    elif kd == 'history':
+        ks += ['history:len%d' % len(case['ops']), 'history:repeat' if case['ops'][-1] == case['ops'][0] else 'history:norepeat']
+        ks += ['history-result:' + (r[0] if r[0] == 'ok' else r[1]) for r in out['res']]
+    elif kd == 'real':
+        ks += ['real:' + case['package'], 'real:template:' + case.get('template', 'corpus'), 'real:n%d' % len(case['ids'])]
     elif kd == 'tsat':
         ks += ['tsat:' + ('+'.join(out['solvers']) or 'Tb-shortcut') + ':' + (out['res'][0] if out['res'][0] == 'ok' else out['res'][1])]
     elif kd == 'cache':
@@ -603,21 +646,70 @@ def classify(case, out):
 
 # ------------------------------------------------------------------ direct oracle
 _real = {}
+# database chemicals: described by the group-contribution packages / not described by them (their gamma defaults to 1 and
+# they are skipped by the group sub-problem) / with a vapour-pressure correlation that starts above 260 K
+GROUPED = ['Water', 'Ethanol', 'Methanol', 'Propanol', 'Acetone', 'Hexane', 'Benzene', 'CS2', 'Acetaldehyde', 'FormicAcid']
+GROUPLESS = ['SO2', 'Ammonia', 'Br2', 'NO2', 'Cl2', 'Hydrazine']
+HIGH_TMIN = ['Benzene', 'CS2', 'Br2', 'NO2', 'Acetaldehyde', 'FormicAcid', 'Propanol', 'Hydrazine']
 REAL_IDS = ['Water', 'Ethanol', 'Methanol', 'Propanol', 'Acetone']
+PACKAGES = ['ideal', 'dortmund', 'unifac']
 
 def real_env():
     if not _real:
         e = env()
         tmo, eq = e['tmo'], e['eq']
-        chems = tmo.Chemicals(REAL_IDS, cache=True)
-        base = tmo.Thermo(chems)     # Dortmund activity coefficients (default package)
-        ideal = tmo.Thermo(chems, Gamma=eq.IdealActivityCoefficients, Phi=eq.IdealFugacityCoefficients,
-                           PCF=eq.MockPoyintingCorrectionFactors)
-        _real.update(chems={c.ID: c for c in chems}, dortmund=base, ideal=ideal)
+        base = tmo.Chemicals(['Water', 'Ethanol'], cache=True)   # BubblePoint/DewPoint read only Gamma/Phi/PCF of the thermo
+        _real.update(chems={},
+                     dortmund=tmo.Thermo(base),     # Dortmund activity coefficients (default package)
+                     unifac=tmo.Thermo(base, Gamma=eq.UNIFACActivityCoefficients),
+                     ideal=tmo.Thermo(base, Gamma=eq.IdealActivityCoefficients, Phi=eq.IdealFugacityCoefficients,
+                                      PCF=eq.MockPoyintingCorrectionFactors))
     return _real
+
+def real_chem(ID):
+    r = real_env()
+    if ID not in r['chems']:
+        r['chems'][ID] = env()['tmo'].Chemical(ID, cache=True)
+    return r['chems'][ID]
 
 def rel(a, b):
     return abs(a - b) / max(1., abs(a), abs(b))
+
+def vclose(a, b, tol=1e-9):
+    a = np.broadcast_to(np.asarray(a, float), np.shape(b) if np.ndim(b) else np.shape(a))
+    b = np.broadcast_to(np.asarray(b, float), a.shape)
+    return bool(np.all(np.abs(a - b) <= tol * np.maximum(1., np.maximum(np.abs(a), np.abs(b)))))
+
+def package_contracts(BP, DP, BPp, chs, zn, perm, T, P, label):
+    """What the theorems assume of the package objects, measured: Gamma / Phi / PCF are functions of their arguments only
+    (the same evaluation twice gives the same numbers), Gamma.f(x, T, *Gamma.args) is Gamma(x, T), and a permuted chemical
+    list gives the permuted coefficients.  Returns a message or None."""
+    perm = list(perm)
+    x = np.array(zn, float)
+    g1 = np.array(BP.gamma(x.copy(), T), float) * np.ones(len(x))
+    g2 = np.array(BP.gamma(x.copy(), T), float) * np.ones(len(x))
+    if not vclose(g1, g2):
+        return (f'{label}: activity coefficients at the same (x, T) change between two evaluations (state kept between calls): '
+                f'{g1.tolist()} then {g2.tolist()}')
+    gf = np.array(DP.gamma.f(x.copy(), T, *DP.gamma.args), float) * np.ones(len(x))
+    if not vclose(gf, g2):
+        return f'{label}: Gamma.f(x, T, *Gamma.args) = {gf.tolist()} differs from Gamma(x, T) = {g2.tolist()}'
+    gp = np.array(BPp.gamma(x[perm].copy(), T), float) * np.ones(len(x))
+    if not vclose(gp, g2[perm], 1e-8):
+        return (f'{label}: activity coefficients are not permuted with the chemical list: order {[c.ID for c in chs]} gives '
+                f'{g2.tolist()}, order {[chs[i].ID for i in perm]} gives {gp.tolist()}')
+    Ps = np.array([c.Psat(T) for c in chs], float)
+    for name, f, fp in (('fugacity coefficients', lambda o, xx, pp: o.phi(xx, T, P), None),
+                        ('Poyinting factors', lambda o, xx, pp: o.pcf(T, P, pp), None)):
+        a1 = np.array(f(BP, x.copy(), Ps.copy()), float) * np.ones(len(x))
+        a2 = np.array(f(BP, x.copy(), Ps.copy()), float) * np.ones(len(x))
+        ap = np.array(f(BPp, x[perm].copy(), Ps[perm].copy()), float) * np.ones(len(x))
+        if not vclose(a1, a2): return f'{label}: {name} change between two identical evaluations: {a1.tolist()} then {a2.tolist()}'
+        if not vclose(ap, a2[perm], 1e-8): return f'{label}: {name} are not permuted with the chemical list'
+    return None
+
+def in_dom(obj, T):
+    return obj.Tmin <= T <= obj.Tmax
 
 def check_pair(BP, DP, chs, z, T, P, ideal, label):
     """Property clauses for one (objects, composition) pair; returns a message or None."""
@@ -626,7 +718,7 @@ def check_pair(BP, DP, chs, z, T, P, ideal, label):
     if npos == 0:
         return None
     zn = z / z.sum()
-    msgs = []
+    ideal_phi = isinstance(BP.phi, env()['eq'].IdealFugacityCoefficients)
     if P is not None:
         Tb, y = BP.solve_Ty(z.copy(), P)
         Td, x = DP.solve_Tx(z.copy(), P)
@@ -643,23 +735,30 @@ def check_pair(BP, DP, chs, z, T, P, ideal, label):
             if P <= c.Pc and not (P == 101325 and c.Tb) and rel(c.Psat(Tb), P) > 1e-4:
                 return f'{label}: single component {c.ID}: Psat(T)={c.Psat(Tb)!r} differs from P={P!r}'
             return None
-        inside = BP.Tmin + 10 < Tb < BP.Tmax - 10 and BP.Tmin + 10 < Td < BP.Tmax - 10
-        if inside:
+        # the defining equations, wherever the returned temperature lies in the domain the object itself declares
+        # (the residual is evaluated with the object's own Psat / gamma / phi / pcf, so it is meaningful on all of it)
+        if in_dom(BP, Tb):
             Ps = np.array([c.Psat(Tb) for c in chs])
             yy = zn * Ps * BP.gamma(zn, Tb) * BP.pcf(Tb, P, Ps) / P
-            if not isinstance(BP.phi, env()['eq'].IdealFugacityCoefficients):
+            if not ideal_phi:
                 yy = yy / BP.phi(y, Tb, P)
             if abs(1 - yy.sum()) > 1e-6:
-                return f'{label}: bubble residual at T={Tb!r}, P={P!r} on the normalised composition is {1 - yy.sum()!r}'
+                return (f'{label}: bubble equation violated at the returned T={Tb!r} (P={P!r}): 1 - sum y on the normalised '
+                        f'composition is {1 - yy.sum()!r}')
+            if not vclose(yy / yy.sum(), y, 1e-6):
+                return f'{label}: returned y={y.tolist()} is not the normalised Raoult vector {(yy / yy.sum()).tolist()} at T={Tb!r}'
+            P2 = BP.solve_Py(z.copy(), Tb)[0]
+            if rel(P2, P) > 1e-6: return f'{label}: solve_Py(z, solve_Ty(z, P)) = {P2!r} differs from P = {P!r}'
+        if in_dom(DP, Td):
             Ps = np.array([c.Psat(Td) for c in chs])
             xx = zn * P / Ps / DP.gamma(x, Td) * DP.phi(zn, Td, P) / DP.pcf(Td, P, Ps)
             if abs(1 - xx.sum()) > 1e-6:
-                return f'{label}: dew residual at T={Td!r}, P={P!r} on the normalised composition is {1 - xx.sum()!r}'
-            P2 = BP.solve_Py(z.copy(), Tb)[0]
-            if rel(P2, P) > 1e-6: return f'{label}: solve_Py(z, solve_Ty(z, P)) = {P2!r} differs from P = {P!r}'
+                return (f'{label}: dew equation violated at the returned T={Td!r} (P={P!r}): 1 - sum x on the normalised '
+                        f'composition is {1 - xx.sum()!r}')
             P3 = DP.solve_Px(z.copy(), Td)[0]
             if rel(P3, P) > 1e-6: return f'{label}: solve_Px(z, solve_Tx(z, P)) = {P3!r} differs from P = {P!r}'
-            if ideal and Tb > Td + 1e-6: return f'{label}: T_bubble={Tb!r} exceeds T_dew={Td!r} at P={P!r}'
+        if ideal and in_dom(BP, Tb) and in_dom(DP, Td) and Tb > Td + 1e-6:
+            return f'{label}: T_bubble={Tb!r} exceeds T_dew={Td!r} at P={P!r}'
     if T is not None:
         Pb, y = BP.solve_Py(z.copy(), T)
         Pd, x = DP.solve_Px(z.copy(), T)
@@ -674,37 +773,84 @@ def check_pair(BP, DP, chs, z, T, P, ideal, label):
             Ps = np.array([c.Psat(T) for c in chs])
             if BP.Pmin < Pb < BP.Pmax:
                 yy = zn * Ps * BP.gamma(zn, T) * BP.pcf(T, Pb, Ps) / Pb
-                if not isinstance(BP.phi, env()['eq'].IdealFugacityCoefficients):
+                if not ideal_phi:
                     yy = yy / BP.phi(y, T, Pb)
                 if abs(1 - yy.sum()) > 1e-6:
-                    return f'{label}: bubble residual at T={T!r}, P={Pb!r} on the normalised composition is {1 - yy.sum()!r}'
+                    return (f'{label}: bubble equation violated at T={T!r}, returned P={Pb!r}: 1 - sum y on the normalised '
+                            f'composition is {1 - yy.sum()!r}')
             xx = zn * Pd / Ps / DP.gamma(x, T) * DP.phi(zn, T, Pd) / DP.pcf(T, Pd, Ps)
             if abs(1 - xx.sum()) > 1e-6:
-                return f'{label}: dew residual at T={T!r}, P={Pd!r} on the normalised composition is {1 - xx.sum()!r}'
+                return (f'{label}: dew equation violated at T={T!r}, returned P={Pd!r}: 1 - sum x on the normalised '
+                        f'composition is {1 - xx.sum()!r}')
             if ideal and Pd > Pb * (1 + 1e-9): return f'{label}: P_dew={Pd!r} exceeds P_bubble={Pb!r} at T={T!r}'
-            if ideal:
-                T2 = BP.solve_Ty(z.copy(), Pb)[0]
-                if BP.Tmin + 10 < T2 < BP.Tmax - 10 and rel(T2, T) > 1e-6:
-                    return f'{label}: solve_Ty(z, solve_Py(z, T)) = {T2!r} differs from T = {T!r}'
+            # T -> P -> T: the temperature solve at the pressure just obtained returns the temperature
+            # (with composition-dependent gamma the root in T need not be unique, so only ideal K-values are held to it
+            #  strictly; the other packages must at least return a point that satisfies the equation, checked above for P-cases)
+            if all(c.Psat.Tmin <= T <= c.Psat.Tmax for c in chs):
+                T2, y2 = BP.solve_Ty(z.copy(), Pb)
+                if ideal and rel(T2, T) > 1e-6:
+                    return f'{label}: solve_Ty(z, solve_Py(z, T)) = {T2!r} differs from T = {T!r} (P_bubble={Pb!r})'
+                if in_dom(BP, T2):
+                    Ps2 = np.array([c.Psat(T2) for c in chs])
+                    yy = zn * Ps2 * BP.gamma(zn, T2) * BP.pcf(T2, Pb, Ps2) / Pb
+                    if not ideal_phi:
+                        yy = yy / BP.phi(y2, T2, Pb)
+                    if abs(1 - yy.sum()) > 1e-6:
+                        return (f'{label}: bubble equation violated at the returned T={T2!r} for P=P_bubble({T!r})={Pb!r}: '
+                                f'1 - sum y = {1 - yy.sum()!r}')
+                T3, x3 = DP.solve_Tx(z.copy(), Pd)
+                if ideal and rel(T3, T) > 1e-6:
+                    return f'{label}: solve_Tx(z, solve_Px(z, T)) = {T3!r} differs from T = {T!r} (P_dew={Pd!r})'
+                if ideal and in_dom(BP, T2) and in_dom(DP, T3):
+                    Tb_at_Pd = BP.solve_Ty(z.copy(), Pd)[0]
+                    if in_dom(BP, Tb_at_Pd) and Tb_at_Pd > T3 + 1e-6:
+                        return f'{label}: T_bubble={Tb_at_Pd!r} exceeds T_dew={T3!r} at P={Pd!r}'
     return None
+
+CALLS = (('solve_Ty', 'B', 'P'), ('solve_Tx', 'D', 'P'), ('solve_Py', 'B', 'T'), ('solve_Px', 'D', 'T'))
 
 def invariance(BP, DP, BPp, DPp, z, perm, k, T, P, label):
     z = np.asarray(z, float)
     if int((z > 0).sum()) == 0:
         return None
-    zp = z[list(perm)]
-    for name, obj, objp, arg in (('solve_Ty', BP, BPp, P), ('solve_Tx', DP, DPp, P), ('solve_Py', BP, BPp, T), ('solve_Px', DP, DPp, T)):
+    perm = list(perm)
+    zp = z[perm]
+    first = {}
+    for name, o, a in CALLS:
+        obj, objp, arg = (BP, BPp, P if a == 'P' else T) if o == 'B' else (DP, DPp, P if a == 'P' else T)
         if arg is None:
             continue
         r0 = getattr(obj, name)(z.copy(), arg)
+        first[name] = r0
         rk = getattr(obj, name)(k * z, arg)
         if rel(r0[0], rk[0]) > 1e-6 or np.abs(r0[1] - rk[1]).max() > 1e-6:
             return (f'{label}: {name} depends on the scale of z: z={z.tolist()} gives {r0[0]!r}, {k}*z gives {rk[0]!r} '
                     f'(arg={arg!r})')
         rp = getattr(objp, name)(zp.copy(), arg)
-        if rel(r0[0], rp[0]) > 1e-6 or np.abs(r0[1][list(perm)] - rp[1]).max() > 1e-6:
-            return f'{label}: {name} depends on the order of the chemicals: {r0[0]!r} vs {rp[0]!r} for permutation {list(perm)}'
+        if rel(r0[0], rp[0]) > 1e-6 or np.abs(r0[1][perm] - rp[1]).max() > 1e-6:
+            return (f'{label}: {name} depends on the order of the chemicals: {r0[0]!r}, {r0[1].tolist()} vs {rp[0]!r}, '
+                    f'{rp[1].tolist()} for permutation {perm} (arg={arg!r})')
+    # history independence: the first calls again, after everything else that was computed with these objects
+    for name, o, a in CALLS:
+        if name in first:
+            obj, arg = (BP if o == 'B' else DP), (P if a == 'P' else T)
+            r1 = getattr(obj, name)(z.copy(), arg)
+            r0 = first[name]
+            if rel(r0[0], r1[0]) > 1e-7 or np.abs(r0[1] - r1[1]).max() > 1e-7:
+                return (f'{label}: {name} depends on earlier calls: the same call gave {r0[0]!r} first and {r1[0]!r} when repeated '
+                        f'(arg={arg!r}, z={z.tolist()})')
     return None
+
+def resolve_T(case, chs):
+    if case.get('T') is not None:
+        return case['T']
+    sp = case.get('Tspec')
+    if sp is None:
+        return None
+    lo = max(c.Psat.Tmin for c in chs); hi = min(c.Psat.Tmax for c in chs)
+    if sp[0] == 'lo': return lo + sp[1]
+    if sp[0] == 'frac': return lo + sp[1] * (hi - lo)
+    raise ValueError(sp)
 
 def oracle(case):
     """The property evaluated directly on the implementation (real flexsolve).  Message or None."""
@@ -713,7 +859,7 @@ def oracle(case):
     kd = case['kind']
     if kd == 'real':
         r = real_env()
-        chs = tuple(r['chems'][i] for i in case['ids'])
+        chs = tuple(real_chem(i) for i in case['ids'])
         thermo = r[case['package']]
         ideal = case['package'] == 'ideal'
         perm = case['perm']
@@ -721,16 +867,34 @@ def oracle(case):
         BP, DP = eq.BubblePoint(chs, thermo), eq.DewPoint(chs, thermo)
         BPp, DPp = eq.BubblePoint(chp, thermo), eq.DewPoint(chp, thermo)
         label = f'{"/".join(case["ids"])} ({case["package"]})'
-        m = check_pair(BP, DP, chs, case['z'], case.get('T'), case.get('P'), ideal, label)
-        if m: return m
-        return invariance(BP, DP, BPp, DPp, case['z'], perm, case['k'], case.get('T'), case.get('P'), label)
-    if kd == 'solve':
-        pk = case['pkg']
-        if case['via_call'] and not ((case['T'] is None) != (case['P'] is None) and (case['T'] or case['P'])):
-            return None
+        T, P = resolve_T(case, chs), case.get('P')
         z = np.array(case['z'], float)
-        if (z < 0).any() or int((z > 0).sum()) == 0:
+        if int((z > 0).sum()) == 0:
             return None
+        zn = z / z.sum()
+        lo = max(c.Psat.Tmin for c in chs); hi = min(c.Psat.Tmax for c in chs)
+        Tprobe = T if T is not None else 0.5 * (lo + hi)
+        Pprobe = P if P is not None else 101325.
+        m = package_contracts(BP, DP, BPp, chs, zn, perm, Tprobe, Pprobe, label)   # before any solve
+        if m: return m
+        g_before = np.array(BP.gamma(zn.copy(), Tprobe), float) * np.ones(len(zn))
+        m = check_pair(BP, DP, chs, z, T, P, ideal, label)
+        if m: return m
+        m = invariance(BP, DP, BPp, DPp, z, perm, case['k'], T, P, label)
+        if m: return m
+        g_after = np.array(BP.gamma(zn.copy(), Tprobe), float) * np.ones(len(zn))
+        if not vclose(g_before, g_after):
+            return (f'{label}: activity coefficients at the same (x, T) changed while bubble/dew points were computed: '
+                    f'{g_before.tolist()} before, {g_after.tolist()} after')
+        return None
+    if kd in ('solve', 'history'):
+        pk = case['pkg']
+        if kd == 'solve':
+            if case['via_call'] and not ((case['T'] is None) != (case['P'] is None) and (case['T'] or case['P'])):
+                return None
+            specs = [(np.array(case['z'], float), case.get('T'), case.get('P'))]
+        else:
+            specs = [(np.array(z, float), None if w[0] == 'T' else a, a if w[0] == 'T' else None) for w, z, a in case['ops']]
         cs, thermo = install(pk)
         n = len(cs)
         ideal = pk['G'] + pk['Phi'] + pk['PCF'] == 'iii'
@@ -739,16 +903,20 @@ def oracle(case):
         # the stand-in Gamma/Phi/PCF read their parameters per chemical, so a permuted object is a permuted package
         BPp, DPp = eq.BubblePoint(tuple(cs[i] for i in perm), thermo), eq.DewPoint(tuple(cs[i] for i in perm), thermo)
         label = 'stub package ' + pk['G'] + pk['Phi'] + pk['PCF']
-        T, P = case.get('T'), case.get('P')
-        if P is not None and any(P > c['Pc'] for c in pk['chems']):
-            return None
-        try:
-            with py_gamma_iter():
-                m = check_pair(BP, DP, cs, z, T, P, ideal, label) if ideal else None
-                if m: return m
-                return invariance(BP, DP, BPp, DPp, z, perm, 3., T, P, label)
-        except (RuntimeError, FloatingPointError, e['InfeasibleRegion']):
-            return None          # real solver left the stand-in package's domain: nothing to compare
+        for z, T, P in specs:
+            if (z < 0).any() or int((z > 0).sum()) == 0:
+                continue
+            if P is not None and any(P > c['Pc'] for c in pk['chems']):
+                continue
+            try:
+                with py_gamma_iter():
+                    m = check_pair(BP, DP, cs, z, T, P, ideal, label) if ideal else None
+                    if m: return m
+                    m = invariance(BP, DP, BPp, DPp, z, perm, 3., T, P, label)
+                    if m: return m
+            except (RuntimeError, FloatingPointError, e['InfeasibleRegion']):
+                continue          # real solver left the stand-in package's domain: nothing to compare
+        return None
     if kd == 'cache':
         out = run_cache(case)
         seen = {}
@@ -769,28 +937,52 @@ def finding_key(case, msg):
         for name in ('solve_Ty', 'solve_Tx', 'solve_Px', 'solve_Py'):
             if name in msg:
                 return 'C08:scale:' + name
-    if 'depends on the order' in msg:
-        return 'C08:perm'
-    return 'C08:' + msg.split(':')[1].strip().split(' ')[0] if ':' in msg else 'C08:other'
+    for pat, key in (('depends on the order', 'perm'), ('not permuted with the chemical list', 'package-perm'),
+                     ('change between two', 'package-state'), ('changed while', 'package-state'),
+                     ('depends on earlier calls', 'history'), ('Gamma.f', 'gamma-f-args'),
+                     ('bubble equation violated', 'bubble-equation'), ('dew equation violated', 'dew-equation'),
+                     ('differs from T =', 'PT-inverse'), ('differs from P =', 'TP-inverse'), ('exceeds', 'ordering'),
+                     ('single component', 'single-component'), ('not normalised', 'normalised')):
+        if pat in msg:
+            return 'C08:' + key
+    return 'C08:other'
+
+# ------------------------------------------------------------------ real-chemical cases (regular stream and search)
+def gen_real(rng):
+    """One structured real-chemical case.  Templates: plain (chemicals the package describes), mixed-groups (two or more
+    described chemicals plus chemicals without groups, in random order), edge (a specification close to the lower end of the
+    chemicals' common vapour-pressure range)."""
+    tpl = rng.choice(['plain', 'plain', 'mixed-groups', 'mixed-groups', 'edge', 'edge'])
+    if tpl == 'plain':
+        ids = rng.sample(GROUPED, rng.choice([1, 2, 2, 3, 3, 4, 5]))
+        package = rng.choice(PACKAGES)
+    elif tpl == 'mixed-groups':
+        ids = rng.sample(GROUPED, rng.choice([2, 2, 3])) + rng.sample(GROUPLESS, rng.choice([1, 1, 2]))
+        rng.shuffle(ids)
+        package = rng.choice(['dortmund', 'dortmund', 'unifac', 'ideal'])
+    else:
+        ids = rng.sample(HIGH_TMIN, rng.choice([2, 2, 3]))
+        package = rng.choice(['ideal', 'ideal', 'dortmund', 'unifac'])
+    m = len(ids)
+    z = [rng.choice([0.25, 0.5, 1., 2., 3., 0.125, 0.05]) for _ in range(m)]
+    if m > 1 and rng.random() < 0.15:
+        z[rng.randrange(m)] = rng.choice([0., 1e-6])
+    if sum(1 for x in z if x > 0) == 0:
+        z[0] = 1.
+    perm = list(range(m)); rng.shuffle(perm)
+    if m > 1 and perm == list(range(m)):
+        perm = perm[1:] + perm[:1]
+    c = {'kind': 'real', 'template': tpl, 'ids': ids, 'z': z, 'perm': perm, 'k': rng.choice([3., 0.5, 10., 1e-3, 4.]), 'package': package}
+    if tpl == 'edge':
+        c['Tspec'] = ['lo', rng.choice([0.5, 2., 5., 8., 12., 25.])]
+    elif tpl == 'mixed-groups' or rng.random() < 0.5:
+        c['Tspec'] = ['frac', rng.choice([0.1, 0.25, 0.4, 0.55, 0.7])]
+    else:
+        c['P'] = float(rng.choice([5e3, 2e4, 5e4, 101325., 2e5, 5e5, 1e6]))
+    return c
 
 def search_cases(rng, tier):
-    n = 60 if tier == 'quick' else 600
-    cases = []
-    for _ in range(n):
-        m = rng.choice([1, 2, 2, 3, 3, 4, 5])
-        ids = rng.sample(REAL_IDS, m)
-        z = [rng.choice([0., 0.25, 0.5, 1., 2., 3., 1e-6, 0.125]) for _ in range(m)]
-        if sum(1 for x in z if x > 0) == 0:
-            z[0] = 1.
-        perm = list(range(m)); rng.shuffle(perm)
-        c = {'kind': 'real', 'ids': ids, 'z': z, 'perm': perm, 'k': rng.choice([3., 0.5, 10., 1e-3]),
-             'package': rng.choice(['ideal', 'ideal', 'dortmund'])}
-        if rng.random() < 0.5:
-            c['P'] = float(rng.choice([5e3, 2e4, 5e4, 101325., 2e5, 5e5, 1e6, 3e6]))
-        else:
-            c['T'] = float(rng.choice([260., 300., 330., 350., 373.15, 400., 440., 480.]))
-        cases.append(c)
-    return cases
+    return [gen_real(rng) for _ in range(60 if tier == 'quick' else 600)]
 
 CORPUS = [
     # section 5 item 23: composition handed to the temperature solvers unnormalised
